@@ -37,7 +37,7 @@ CLAIMS = {
   design="§3 C08"),
  "C02": dict(
   technique="Lean 4 proofs about the two-level API model (results are a function of the logical state only, so they are identical on the live and the reopened file; the rendered image is a function of the tables and ignores the caches open rebuilds; little-endian field codec round trip between renderer and reader model) + lock-step comparing the model's rendered image with the library's backing bytes after EVERY call without flush + reopen oracle (both modes, full dump) at sampled quiescent boundaries",
-  text="Proof: CfbVerif.Props.C02 — C02_image_ignores_caches, C02_results_ignore_layout, C02_state_ignores_layout, C02_continue_same, C02_le_roundtrip, leN_pushLE_frame. "
+  text="Proof: CfbVerif.Props.C02 — C02_image_ignores_caches, C02_results_ignore_layout, C02_state_ignores_layout, C02_continue_same, C02_le_roundtrip, C02_entry_codec / header_field_roundtrip (the renderers of a directory entry and of the header are field sequences, renderEntry_eq / renderHeader_eq, and every field is read back by the reader model's primitive at its offset). "
        "Tie: the model is write-through by construction; its image (header, FAT, DIFAT, MiniFAT, directory, data incl. stale sectors) equals the real backing bytes after every call of every history in both versions, so a postponed or forgotten write shows at the first boundary; the real bytes are additionally opened with open and open_strict at sampled boundaries and compared with the live dump; 10% of calls are reopen and the history continues.",
   note="That every rendered image reopens to the logical state is decided per boundary (library + Raw reader on snapshots), not proved for all states. Trusted base as C15.",
   design="§3 C02"),
